@@ -1,3 +1,4 @@
+import struct
 from typing import List
 from itertools import chain
 from binascii import hexlify
@@ -80,12 +81,17 @@ def push_data(data):
 
 def read_data(token, stream):
     if token < OP_PUSHDATA1:
-        return stream.read(token)
-    if token == OP_PUSHDATA1:
-        return stream.read(stream.read_uint8())
-    if token == OP_PUSHDATA2:
-        return stream.read(stream.read_uint16())
-    return stream.read(stream.read_uint32())
+        size = token
+    elif token == OP_PUSHDATA1:
+        size = stream.read_uint8()
+    elif token == OP_PUSHDATA2:
+        size = stream.read_uint16()
+    else:
+        size = stream.read_uint32()
+    data = stream.read(size) if size is not None else None
+    if data is None or len(data) != size:
+        raise ParseError("Push data runs past the end of the script.")
+    return data
 
 
 # opcode for OP_1 - OP_16
@@ -330,7 +336,10 @@ class Script:
         return cls(source, template_hint=template)
 
     def parse(self, template_hint=None):
-        tokens = self.tokens
+        try:
+            tokens = self.tokens
+        except (ParseError, struct.error):
+            raise ValueError(f'No matching templates for source (malformed push): {hexlify(self.source)}')
         if not tokens and not template_hint:
             template_hint = self.NO_SCRIPT
         for template in chain((template_hint,), self.templates):
